@@ -34,6 +34,7 @@ structure Lis where
   weak : Bool
   active : Bool := true
   dying : Bool := false
+  kills : Option Nat := none      -- `listenkill`: this listener's handler unlistens that listener
 
 structure St where
   sp : Spec := {}
@@ -80,9 +81,20 @@ def lisOut (st : St) (tbl : Table) (l : Lis) : Option (String × Int) :=
 def listenerOutputs (st : St) (tbl : Table) : List (String × Int) :=
   st.lis.toList.filterMap (lisOut st tbl)
 
+/-- a listener whose handler unlistens another one (`listenkill`): when it is called in this transaction the victim is
+    silent from this very transaction on (the scripts only pair a killer with a victim that is visited later: the victim
+    listens further downstream of the killer's stream) — "after unlisten returns it is never called again, including for
+    a transaction that is still open" (C10) -/
+def killVictims (st : St) (tbl : Table) : Array Lis :=
+  st.lis.toList.foldl (fun lis l =>
+    match l.kills with
+    | some v => if (lisOut st tbl l).isSome then lis.modify v fun x => { x with active := false } else lis
+    | none => lis) st.lis
+
 /-- one transaction with the given injected events; returns callbacks and the spawned events -/
 def runOne (st : St) (ev : Events) (posts : List (String × Nat)) : St × List (String × Int) × List (Nat × Int) :=
   let tbl := fireTable st.sp ev
+  let st := { st with lis := killVictims st tbl }
   let cbs := listenerOutputs st tbl
   let dfr := deferred st.sp tbl
   let sp := applyUpdates st.sp tbl      -- together with the `txn + 1` below: `stepTxn`
@@ -367,6 +379,15 @@ def stmt (st : St) (ws : List String) : St × String :=
          if st.depth > 0 then ({ st with posts := st.posts ++ [.ev i v] }, "ok")
          else closeTxn { st with posts := st.posts ++ [.ev i v] }
        else (st, "skip")
+     | _, _ => (st, "skip"))
+  | ["listenkill", l, x, victim] =>
+    if !st.fresh l then (st, "skip") else
+    (match st.stream x, st.find victim with
+     | some t, some (.listener v) =>
+       st.inTxn fun st =>
+         let id := st.lis.size
+         let st := { st with lis := st.lis.push { name := l, target := t, isCell := false, regTxn := st.sp.txn, weak := false, kills := some v } }
+         st.bind l (.listener id)
      | _, _ => (st, "skip"))
   | ["routelate", l, r, k0, k] => routeLateStmt st l r k0 k
   | ["latelisten", l, s, base, op] => lateListenStmt st l s base op
